@@ -959,6 +959,12 @@ def p_compilerDirective(p):
             if os.path.dirname(p.parser.file):
                 fname = os.path.join(os.path.dirname(p.parser.file),
                                      fname)
+        if p.parser.mofcomp.is_being_compiled(fname):
+            raise MOFParseError(
+                msg=_format(
+                    "Invalid include pragma: MOF file {0!A} includes itself "
+                    "(directly or indirectly)", fname),
+                parser_token=p)
         p.parser.mofcomp.compile_file(fname, p.parser.target_namespace)
 
     elif directive == 'namespace':
@@ -2930,6 +2936,11 @@ class MOFCompiler:
         # not None.
         self.parser.embedded_objects = None
 
+        # Absolute path names of the MOF files that are currently being
+        # compiled by compile_file() (nested by include pragmas and
+        # dependency resolution), for detecting include cycles.
+        self._files_being_compiled = []
+
     def conn_close(self):
         """
         Close the underlying connection, if it is a WBEMConnection.
@@ -3157,10 +3168,27 @@ class MOFCompiler:
                 raise OSError(
                     _format("No such file: {0!A}", filename))
             filename = rfilename
+        if self.is_being_compiled(filename):
+            raise MOFParseError(
+                msg=_format(
+                    "MOF file {0!A} includes itself (directly or indirectly)",
+                    filename))
         with open(filename, encoding='utf-8') as f:
             mof = f.read()
 
-        return self.compile_string(mof, ns, filename=filename)
+        self._files_being_compiled.append(os.path.abspath(filename))
+        try:
+            return self.compile_string(mof, ns, filename=filename)
+        finally:
+            self._files_being_compiled.pop()
+
+    def is_being_compiled(self, filename):
+        """
+        Return whether the MOF file with the specified path name is
+        currently being compiled by :meth:`compile_file` (that is, whether
+        compiling it again would be an include cycle).
+        """
+        return os.path.abspath(filename) in self._files_being_compiled
 
     def find_mof(self, classname):
         """
